@@ -88,7 +88,7 @@ def run_shard(ctx):
         tree, work = evaluate(ctx, case)
         text = _tree.text_of(case)
         markup_classes = [c for c in case["classes"] if c not in ("text", "free", "line")]
-        nt = tree is not None and (len(markup_classes) >= 2 or case["kind"] in ("nest", "mutdoc")) and has_structure(tree)
+        nt = tree is not None and (len(markup_classes) >= 2 or case["kind"] in ("nest", "mutdoc", "misnest")) and has_structure(tree)
         labels = ["lang:" + case["lang"], "kind:" + case["kind"], "db" if case["db"] is not None else "no-db"]
         labels += ["class:" + c for c in case["classes"]]
         if case["depth"]:
